@@ -420,7 +420,8 @@ def nontrivial(s, t, v):
 def bucket(s, t, v):
     b = ["family:" + s.get("family", "corpus"), "mode:" + s.get("mode", "seq")]
     if t.get("outcome") != "ok":
-        return b + ["outcome:" + str(t.get("outcome"))]
+        oc = str(t.get("outcome"))
+        return b + ["outcome:" + (oc.split(":")[0] + ":" + oc.split("\n")[-1] if "\n" in oc else oc)]
     b.append("hooks:%s" % ("on" if t.get("hooks") else "off"))
     b.append("accepts-by:" + v.get("how", "?"))
     n = v.get("active", 0)
